@@ -26,14 +26,27 @@ def lock_discipline(repo):
     """C07: the lock discipline of Av._get_level / _ensure_level (perm_sets/permset.py)"""
     tree, _ = _parse(repo, "permuta/perm_sets/permset.py")
     av = next(n for n in tree.body if isinstance(n, ast.ClassDef) and n.name == "Av")
-    # class-level lock shared by all instances
-    shared = any(isinstance(s, ast.Assign) and any(isinstance(t, ast.Name) and t.id == "_CACHE_LOCK" for t in s.targets)
-                 for s in av.body)
+    # class-level lock shared by all instances: any class attribute bound to `<module>.Lock()` / `RLock()`
+    # (the name is the maintainer's choice; a re-entrant lock serialises the same way because no holder re-enters)
+    lock_names = set()
+    for s in av.body:
+        if isinstance(s, ast.Assign) and isinstance(s.value, ast.Call) and not s.value.args and not s.value.keywords \
+                and isinstance(s.value.func, ast.Attribute) and s.value.func.attr in ("Lock", "RLock") \
+                and isinstance(s.value.func.value, ast.Name) and s.value.func.value.id in ("multiprocessing", "threading"):
+            lock_names |= {t.id for t in s.targets if isinstance(t, ast.Name)}
+    # ... never rebound on an instance or on the class later on
+    for n in ast.walk(tree):
+        if isinstance(n, (ast.Assign, ast.AugAssign, ast.AnnAssign)):
+            for t in (n.targets if isinstance(n, ast.Assign) else [n.target]):
+                if isinstance(t, ast.Attribute) and t.attr in lock_names:
+                    lock_names.discard(t.attr)
+    shared = bool(lock_names)
     get_level = next(n for n in av.body if isinstance(n, ast.FunctionDef) and n.name == "_get_level")
 
     def is_lock_with(w):
         return isinstance(w, ast.With) and any(
-            _is_attr(i.context_expr, "Av", "_CACHE_LOCK") or _is_attr(i.context_expr, "cls", "_CACHE_LOCK")
+            isinstance(i.context_expr, ast.Attribute) and i.context_expr.attr in lock_names
+            and ast.unparse(i.context_expr.value) in ("Av", "cls", "self", "type(self)", "self.__class__")
             for i in w.items)
 
     def calls_ensure(node):
